@@ -682,3 +682,79 @@ func badLoopBufShared(r io.Reader, handle func([]byte)) error {
 		go func() { handle(msg) }()
 	}
 }
+
+// ---- loop bounds (C11.10)
+
+func okLoopCounted(xs []int) int {
+	t := 0
+	for i := 0; i < len(xs); i++ {
+		t += xs[i]
+	}
+	return t
+}
+
+func okLoopRange(xs []int) int {
+	t := 0
+	for _, x := range xs {
+		t += x
+	}
+	return t
+}
+
+func okLoopConsume(p []byte) int {
+	n := 0
+	for len(p) > 255 {
+		p = p[255:]
+		n++
+	}
+	return n
+}
+
+func okLoopReader(r interface{ Read([]byte) (int, error) }) int {
+	buf := make([]byte, 8)
+	t := 0
+	for {
+		n, err := r.Read(buf)
+		t += n
+		if err != nil {
+			return t
+		}
+	}
+}
+
+func badLoopRedraw(draw func() (uint32, error), current uint32) (uint32, error) {
+	for {
+		v, err := draw()
+		if err != nil {
+			return 0, err
+		}
+		if v != current {
+			return v, nil
+		}
+	}
+}
+
+func badLoopDataDependent(next map[int]int, at int) int {
+	for at != 0 {
+		at = next[at]
+	}
+	return at
+}
+
+// ---- accept to handler (C03.13)
+
+func okAcceptCarrierInspects(c *net.TCPConn) (string, error) {
+	f, err := c.File()
+	if err != nil {
+		return "", err
+	}
+	defer f.Close()
+	return c.RemoteAddr().String(), nil
+}
+
+func badAcceptCarrierCloses(c *net.TCPConn) error {
+	if c.RemoteAddr() == nil {
+		return c.Close()
+	}
+	return nil
+}
